@@ -288,7 +288,14 @@ pub fn check_fault(m: &Model, c: &SeqCase, f: &Fault) -> CheckResult {
     })
 }
 
-pub fn replay_c05(_check: &str, i: &Value) -> Option<CheckResult> {
+pub fn replay_c05(check: &str, i: &Value) -> Option<CheckResult> {
+    if check == "upload" {
+        let _q = crate::props::c11::Quiet::new();
+        return Some(crate::props::c11::check_upload(&crate::table(), &serde_json::from_value(i.clone()).ok()?).map_err(|mut v| {
+            v.sig = v.sig.replacen("C11 ", "C05 seq=feig.WriteFile ", 1);
+            v
+        }));
+    }
     Some(check_seq(&Model::new(), &serde_json::from_value(i.clone()).ok()?))
 }
 pub fn replay_c06(check: &str, i: &Value) -> Option<CheckResult> {
@@ -439,10 +446,49 @@ pub fn run_c05(tier: Tier) -> i32 {
         });
     });
     stats.merge(s);
+    // the firmware upload stream: every data request answered exactly once with the requested block (the C11 oracle, reported here
+    // as C05 because "answers ... with the requested data block during a firmware upload" is part of this property's statement)
+    {
+        use crate::props::c11::{check_upload, present_of, upload_case_strategy, Quiet};
+        let _q = Quiet::new();
+        let t = crate::table();
+        let nup: u32 = tier.pick(2_400, 40_000);
+        let s = ctx.shards("upload", 16, |_i, seed, st| {
+            let strat = upload_case_strategy(8 << 10);
+            ctx.proptest(seed, nup / 16, &strat, st, |c, st| {
+                let present = present_of(&c.files);
+                let ids: std::collections::BTreeSet<u8> = present.iter().map(|p| p.0).collect();
+                // a request entitled to a longer block than an earlier (short) one
+                let mut shortest = c.block as usize;
+                let mut longer_after_short = false;
+                for r in &c.requests {
+                    if !r.malformed.is_empty() {
+                        break;
+                    }
+                    let Some((_, size)) = present.iter().find(|(id, _)| *id == r.id) else { break };
+                    let due = size.saturating_sub(r.offset as usize).min(c.block as usize);
+                    if due > shortest {
+                        longer_after_short = true;
+                    }
+                    shortest = shortest.min(due);
+                }
+                st.case(ids.len() >= 2 && longer_after_short, fnv(&serde_json::to_vec(c).unwrap()));
+                st.class("upload:case");
+                if longer_after_short {
+                    st.class("upload:longer-block-due-after-a-short-one");
+                }
+                check_upload(&t, c).map_err(|mut v| {
+                    v.sig = v.sig.replacen("C11 ", "C05 seq=feig.WriteFile ", 1);
+                    v
+                })
+            });
+        });
+        stats.merge(s);
+    }
     stats.exhaustive_parts = vec![format!("17 sequences x every well-formed reply script (non-final* . final) of length <= {depth} over the command's reply alphabet")];
     ctx.finish(
         stats,
-        "17 Sequence impls x reply scripts over each command's reply alphabet (Appendix B): all scripts up to the stated depth with representative canonical bodies, then proptest scripts up to length 40 with random canonical bodies, each x 0..64 bytes queued behind the final packet x a chunk schedule. Oracle: the peer's event log equals the trace computed by the reference model (command once and byte-identical, each reply answered by exactly one 80 00 00 before it is handed over and before the next is read, items = the replies' own decode in order, None twice after the first final packet without I/O, trailing bytes unread). non-trivial = >= 1 intermediate packet before the final one and trailing bytes present; distinct by (sequence, command, script bytes, trailing, schedule). The firmware upload stream (data request answered by WriteData) is checked by C11",
+        "17 Sequence impls x reply scripts over each command's reply alphabet (Appendix B): all scripts up to the stated depth with representative canonical bodies, then proptest scripts up to length 40 with random canonical bodies, each x 0..64 bytes queued behind the final packet x a chunk schedule. Oracle: the peer's event log equals the trace computed by the reference model (command once and byte-identical, each reply answered by exactly one 80 00 00 before it is handed over and before the next is read, items = the replies' own decode in order, None twice after the first final packet without I/O, trailing bytes unread). The firmware upload stream (data request answered by WriteData) is driven with the C11 generator (payload directories x block sizes x request scripts) and the C11 oracle: each good request answered exactly once with id, offset and file[offset..min(offset+block,size)], completion/abort acknowledged, trailing bytes unread. non-trivial = >= 1 intermediate packet before the final one and trailing bytes present (upload: >= 2 files and a request entitled to a longer block than an earlier short one); distinct by (sequence, command, script bytes, trailing, schedule)",
         &["the scripted peer releases reply i+1 only when the client has answered reply i; a poll for data while nothing is released is logged and is itself a violation", "replies are canonical packets of the variant types (table-driven)"],
         false,
     )
